@@ -83,7 +83,7 @@ def small_angle_asm(g, vs):
     return asm
 
 
-def job(cfg, which, tier, cfgs):
+def job(cfg, which, tier, cfgs, ufix=None):
     gn, K, b = cfg
     T.reset_terms()
     res = check.Result()
@@ -119,6 +119,18 @@ def job(cfg, which, tier, cfgs):
         if which in ("vs", "dvs"):
             return [uu] + [r.uniform(-0.8, 0.8) for _ in range(K * D)]
         return [uu] + [x for _ in range(K + 1) for x in g.random_element(r, 1.0)]
+    in_names = [x.args[0] for x in ins]
+    if ufix is not None:
+        # bounded variant for the expensive Lie-group Jacobians: the curve parameter is fixed (all control data stay symbolic)
+        ins = [T.Const(ufix)] + ins[1:]
+        asm = []   # u is a constant here: no constraint may mention the symbol (a solver model would otherwise assign it freely)
+        base_sampler = sampler
+
+        def sampler(k, base_sampler=base_sampler):
+            v = base_sampler(k)
+            v[0] = float(ufix)
+            return v
+        key = key + "/u=%s" % ufix
     res.functions.add(fn)
     res.validated += h.validate(fn, sampler, nout, 6)
     if not vec and which in ("gs", "dgs"):
@@ -150,14 +162,16 @@ def job(cfg, which, tier, cfgs):
                 obl.append(("jer%d" % c, outs[R + 2 * D + c], jer[c]))
         else:
             ncol = D * K if which == "dvs" else D * (K + 1)
-            wrt = [x for x in ins[1:]]
+            wrt = in_names[1:]
             for col in range(ncol):
-                sname = wrt[col].args[0]
+                sname = wrt[col]
                 dval = g.vee(G.mm(Mi, [[T.diff(e, sname) for e in row] for row in M]))
                 for r_ in range(D):
                     obl.append(("dg%d_%d" % (r_, col), outs[r_ * ncol + col], dval[r_]))
                     obl.append(("dvel%d_%d" % (r_, col), outs[D * ncol + r_ * ncol + col], T.diff(vel[r_], sname)))
                     obl.append(("dacc%d_%d" % (r_, col), outs[2 * D * ncol + r_ * ncol + col], T.diff(acc[r_], sname)))
+        if ufix is not None:
+            obl = [(n_, l_, T.substitute(r_, {"u": T.Const(ufix)})) for n_, l_, r_ in obl]
         return obl
 
     def decide(name, lhs, rhs, p):
@@ -179,13 +193,13 @@ def job(cfg, which, tier, cfgs):
                             vb.how = "identity up to compile-time rounding of basis constants: " + vb.how
                             return vb
                 return v
-        except T.PolyTooBig:
+        except (T.PolyTooBig, MemoryError):
             return solver.Verdict("undecided", "normal form too large / time budget")
 
     def per_path(p, obl):
         return {name: decide for name, _, _ in obl}
     check.check_wrapper(res, h, fn, ins, nout, None, key, tol=TOL * 10, sampler=sampler, assumptions=asm, obligations=obligations, per_path=per_path,
-                        pid=PID, nvalidate=0, max_paths=64)
+                        pid=PID, nvalidate=0, max_paths=64, in_names=in_names)
     res.axioms.add("vel = vee(M^-1 dM/du), acc = d vel/du, jer = d acc/du by symbolic differentiation of the oracle curve prod_j expm(Btilde_j(u) hat v_j)")
     return res
 
@@ -198,11 +212,16 @@ def main(tier):
     jobs = []
     for cfg in cfgs:
         for which in ("vs", "gs", "dvs", "dgs"):
-            if cfg[0] in ("SO3", "SE2") and which in ("dvs", "dgs") and tier == "quick" and not (cfg[0] == "SE2" and which == "dvs"):
-                continue
+            if cfg[0] in ("SO3", "SE2") and which in ("dvs", "dgs"):
+                # Lie-group Jacobians with symbolic u exceed any quick budget (rational normal forms); the bounded
+                # variant fixes u and keeps every control datum symbolic.  thorough runs both.
+                for uf in (Fraction(1, 3),) if tier == "quick" else (Fraction(1, 3), Fraction(3, 4)):
+                    jobs.append((job, (cfg, which, tier, cfgs, uf)))
+                if tier == "quick":
+                    continue
             jobs.append((job, (cfg, which, tier, cfgs)))
     run.extend(check.run_jobs(jobs, timeout=900 if tier == "quick" else 3600))
-    run.bounds += ["configurations (group, K, basis): %s" % cfgs, "u in [0,1]; Lie-group differences with rotation norm < 3"]
+    run.bounds += ["configurations (group, K, basis): %s" % cfgs, "u in [0,1]; Lie-group differences with rotation norm < 3", "Lie-group d/d(control) Jacobians (dvs, dgs): u fixed to 1/3 (quick) or {1/3, 3/4} plus symbolic u (thorough)"]
     run.assumptions += ["layer R", "exp oracle of C02", "cumulative basis matrices are decided separately in C20 (here the DEFINITION of the basis is used on the oracle side)"]
     return run.finish()
 
